@@ -495,6 +495,13 @@ def _r3(ctx):
                     if len(hs) == 1:
                         st, val = [c._parent if isinstance(c._parent, ast.stmt) else f.node.body[-1]], c.args[0]
         if val is None:
+            guarded = [s_ for s_ in walk_function(f.node) if isinstance(s_, ast.Assign) and isinstance(s_.targets[0], ast.Subscript)
+                       and const_value(s_.targets[0].slice) == "k_2" and s_ not in f.node.body]
+            if guarded:
+                ctx.violated(f, guarded[0], "%s writes the second slope only under a condition: a curve that brings a finite k_2 along keeps "
+                             "it, while the lifetime multiple and the Gassner cycles of that rule go on using the rule's own exponent - the "
+                             "damage at the predicted Gassner cycles is no longer one" % name, text="k_2 of %s written conditionally" % name)
+                return
             raise AnalysisError("%s: k_2 store not found" % name)
         written[name] = (f, st[0], to_nf(val, atom=_k_atom))
     h = prog.func(MINER + ":MinerHaibach.lifetime_multiple")
